@@ -317,6 +317,27 @@ def cases(rng, tier):
     for _ in range(8 if not th else 40):
         q = rng.choice([2, 3, 5, 7, 11, 13, 101, 65537])
         cli.append(([rng.randrange(-20, 21) for _ in range(rng.randrange(2, 7))] + [0] * rng.choice([0, 0, 1]), q))
+    # several primes in ONE configuration (the loop over primes in main.rs must factor the same f for each of them);
+    # decided by the oracle on the printed output, prime by prime
+    def o_multi(f, qs):
+        def orc(ia):
+            if ia.kind != 'ok' or ia.val == Id('cli_failed'): return 'CLI factorization-mod-p of %s for primes %s: %s' % (f, qs, ia.raw[:120])
+            if [e[0] for e in ia.val] != list(qs): return 'CLI printed moduli %s for primes %s' % ([e[0] for e in ia.val], qs)
+            for (q, fl) in ia.val:
+                if deg(red(f, q)) < 0: continue
+                r = o_factorize(f, q)(_Wrap(fl))
+                if r is not None: return 'CLI, prime %s of %s: %s' % (q, qs, r)
+            return None
+        return orc
+    multi = [([7, -3, 0, 1], [5, 11]), ([9, 10, 0, 0, 1], [13, 7, 3]), ([-1, 0, 0, 0, 1], [2, 3, 5, 7]), ([6, 11, 6, 1], [101, 2, 65537])]
+    for _ in range(6 if not th else 40):
+        f = [rng.randrange(-40, 41) for _ in range(rng.randrange(3, 7))]
+        if f[-1] == 0: f[-1] = 1
+        multi.append((f, rng.sample([2, 3, 5, 7, 11, 13, 101, 65537], rng.choice([2, 3]))))
+    for f, qs in multi:
+        if any(deg(red(f, q)) < 0 for q in qs): continue
+        out.append(Case('cli_factor_mod_p_multi', line('cli_factor_mod_p_multi', f, qs), model=_lib.IMPL_ONLY, oracle=o_multi(f, qs),
+                        always_oracle=True, tag='cli-multi'))
     for f, q in cli:
         if deg(red(f, q)) < 0: continue
         pus = q if fits_usize(q) else 0
